@@ -324,6 +324,7 @@ func run(c *core.Case, st *core.CaseStats, seed int64) {
 				rep("HexEncode", "value", in, "input not modified", d)
 			}
 			core.Retain(st, c, "HexEncodeToString", in, strz.HexEncodeToString(d))
+			core.RetainBytes(st, c, "HexEncode", in, strz.HexEncode(d))
 		})
 	case "digest":
 		name, n := argS(c, 0), argI(c, 1)
@@ -358,6 +359,7 @@ func run(c *core.Case, st *core.CaseStats, seed int64) {
 			if string(gb) != want || string(gs) != want || tb != want || ts != want {
 				rep("digest:"+name, "value", in, want, []string{string(gb), string(gs), tb, ts})
 			}
+			core.RetainBytes(st, c, "digest", in, gb)
 			core.Retain(st, c, "digestToString", in, tb)
 			core.Retain(st, c, "digestToString", in, ts)
 		})
